@@ -138,6 +138,11 @@ class Recorder(object):
         except Exception as e:  # noqa
             tb = traceback.extract_tb(e.__traceback__)
             where = ["%s:%d %s" % (os.path.basename(f.filename), f.lineno, f.name) for f in tb[-3:]]
+            repo = os.path.realpath(os.environ.get("VP_REPO", "/repo")) + os.sep
+            if not any(os.path.realpath(f.filename).startswith(repo) for f in tb):
+                # no frame of the library under test is involved: a harness bug, never a verdict on the library
+                self.inconclusive("harness error in %s: %s: %s @ %s" % (sub, type(e).__name__, str(e)[:200], where))
+                return False, None
             self.counts[sub] = self.counts.get(sub, 0) + 1
             self.violation(sub + ".raises", case, expected="a result",
                            observed="%s: %s @ %s" % (type(e).__name__, str(e)[:200], where),
